@@ -78,6 +78,10 @@ def resolved_event(ev, ctx):
         v = _idval(x, ctx)
         return {"s": v} if isinstance(v, str) else {"i": v}
     k = ev["k"]
+    if k == "err" and ev.get("id") is None:
+        # an error the server could not attribute to any request (id null): to the model it is one
+        # more message that bears nobody's id
+        return {"k": "notif", "method": "(error response with id null)"}
     if k == "resp":
         return {"k": "resp", "id": mid(ev["id"]), "p": ev["p"]}
     if k == "err":
@@ -528,7 +532,7 @@ def model_shape(out):
 # ----------------------------------------------------------------------- reference reading
 def matching(ev, sent_id):
     """Is this scripted event a response (result or error, no method) bearing the sent id?"""
-    if ev["k"] not in ("resp", "err"):
+    if ev["k"] not in ("resp", "err") or ev.get("id") is None:
         return False
     v = _idval(ev["id"], {"id": sent_id})
     return type(v) is type(sent_id) and v == sent_id
